@@ -5,6 +5,7 @@ pub mod c01;
 pub mod c04;
 pub mod c12;
 pub mod c10;
+pub mod c06;
 pub mod c20;
 
 pub fn run(prop: &str, ctx: &mut Ctx) -> Option<Report> {
@@ -13,6 +14,7 @@ pub fn run(prop: &str, ctx: &mut Ctx) -> Option<Report> {
         "C04" => Some(c04::run(ctx)),
         "C12" => Some(c12::run(ctx)),
         "C10" => Some(c10::run(ctx)),
+        "C06" => Some(c06::run(ctx)),
         "C20" => Some(c20::run(ctx)),
         _ => None,
     }
